@@ -9,6 +9,7 @@ from jade.jobs.results_aggregator import ResultsAggregator
 from jade.result import Result
 
 role = sys.argv[1]
+OUT = sys.argv[-1] if len(sys.argv) > (5 if role == "writer" else 4) else "out"
 if role == "writer":
     b, w, n = int(sys.argv[2]), int(sys.argv[3]), int(sys.argv[4])
     for i in range(n):
@@ -18,14 +19,14 @@ if role == "writer":
         A.call_event("call", op="append", row=name)
         r = Result(name, rc if status == "finished" else 1, status, 1.5 + i + w / 10, completion_time=1000.0 + i, hpc_job_id=str(100 + b))
         try:
-            ResultsAggregator.append("out", r, batch_id=b)
+            ResultsAggregator.append(OUT, r, batch_id=b)
         except Timeout:  # loud failure: the lock could not be had within its timeout, nothing was appended
             A.call_event("ret", op="append", row=name, outcome="timeout")
             continue
         A.call_event("ret", op="append", row=name)
 else:
     c, rounds = int(sys.argv[2]), int(sys.argv[3])
-    agg = ResultsAggregator.load("out")
+    agg = ResultsAggregator.load(OUT)
     for r in range(rounds):
         A.call_event("call", op="collect", who=c, round=r)
         try:
